@@ -1,4 +1,7 @@
+import os
 from .common import TRUSTED_BASE_COMMON
+# C18_CASES: smaller budget for mutation experiments (tools/with_mutation.sh)
+_N = int(os.environ.get("C18_CASES", "2000"))
 THEOREMS = [
     "C18_constants", "C18_opcode_table_matches_spec", "C18_arity_discipline", "C18_pop_many_in_bounds",
     "C18_step_total", "C18_run_terminates_or_fuel", "C18_run_outcome_defined",
@@ -14,9 +17,9 @@ MODEL_TARGETS = ["Model/EvmMachine"]
 # init code, each also beneath STATICCALL proxies)
 HARNESS = [
     {"bin": "evm_prog", "tag": "evm_prog",
-     "quick": {"cases": 2000, "shards": 16},
+     "quick": {"cases": _N, "shards": 16},
      "thorough": {"cases": 40000, "shards": 64, "thorough": 1},
-     "search": {"cases": 6000},
+     "search": {"cases": min(3000, 2 * _N)},
      "timeout": 6000},
 ]
 TECHNIQUE = "machine-checked proof (Coq) about an executable model of the interpreter + correspondence check on the real EVM actor"
